@@ -24,12 +24,14 @@ def seed_dir(pid, x):
     return f"{V}/seeded/{pid}_{x}"
 
 def import_seed(pid, x):
-    # first wave: /tmp/wt_<PID>/SEEDED/{A,B}; second wave: /tmp/w2_<PID>/SEEDED/{A,B} stored as C, D; third wave /tmp/w3_<PID> stored as E, F; fourth wave /tmp/w4_<PID> stored as G, H
+    # first wave: /tmp/wt_<PID>/SEEDED/{A,B}; second wave: /tmp/w2_<PID>/SEEDED/{A,B} stored as C, D; third wave /tmp/w3_<PID> stored as E, F; fourth wave /tmp/w4_<PID> stored as G, H; fifth wave /tmp/w5_<PID> stored as I
     src = f"/tmp/wt_{pid}/SEEDED/{x}"
     if x in ("C", "D"):
         src = f"/tmp/w2_{pid}/SEEDED/{'A' if x == 'C' else 'B'}"
     if x in ("E", "F"):
         src = f"/tmp/w3_{pid}/SEEDED/{'A' if x == 'E' else 'B'}"
+    if x == "I":  # fifth wave: /tmp/w5_<PID>, one change each (given the property text only)
+        src = f"/tmp/w5_{pid}/SEEDED/A"
     if x in ("G", "H"):
         src = f"/tmp/w4_{pid}/SEEDED/{'A' if x == 'G' else 'B'}"
     d = seed_dir(pid, x)
